@@ -84,6 +84,52 @@ func runC05(c *Ctx) {
 		}
 	}
 	c.AtLeast("R1", "callers of pruneDeleteFiles", callers, 1)
+	// the --dry-run flag of the calling command is what arrives in prune's dryRun parameter (the last three
+	// parameters are all bool: a transposed argument list still compiles)
+	isDryFlag := func(v ssa.Value) bool {
+		u, ok := Unwrap(v).(*ssa.UnOp)
+		if !ok {
+			return false
+		}
+		g, ok := u.X.(*ssa.Global)
+		return ok && strings.HasSuffix(g.Name(), "DryRunArg")
+	}
+	pruneCalls := 0
+	for _, fn := range p.RepoFuncs(productPkg) {
+		for _, ci := range CallsIn(fn, "commands.prune") {
+			pruneCalls++
+			readsFlag := false
+			for _, b := range fn.Blocks {
+				for _, in := range b.Instrs {
+					if v, ok := in.(ssa.Value); ok && isDryFlag(v) {
+						readsFlag = true
+					}
+				}
+			}
+			args := ci.Common().Args
+			good, why := true, ""
+			for i, prm := range prune.Params {
+				if i >= len(args) {
+					break
+				}
+				fromFlag := false
+				for _, l := range append(p.LeavesNoFields(args[i], nil), args[i]) {
+					if isDryFlag(l) {
+						fromFlag = true
+					}
+				}
+				switch {
+				case prm == dry && readsFlag && !fromFlag:
+					good, why = false, "the command has a --dry-run flag but prune's dryRun parameter does not receive it"
+				case prm != dry && prm.Name() != "verbose" && fromFlag:
+					good, why = false, "the --dry-run flag is passed as prune's "+prm.Name()+" parameter"
+				}
+			}
+			c.Check(good, "R1", "dry-run-flag-reaches-prune:"+FnName(fn), p.InstrPos(ci), "the command's --dry-run flag is prune's dryRun argument", FnName(fn)+" calls prune with its --dry-run flag in the wrong position ("+why+"): a dry run deletes objects")
+		}
+	}
+	c.AtLeast("R1", "callers of prune", pruneCalls, 2)
+	retentionScansUnfiltered(c, "R3")
 	// removals inside pruneDeleteFiles target ObjectPath(oid) of the listed oids
 	for _, ci := range CallsIn(del, "os.Remove", "os.RemoveAll") {
 		okp := false
